@@ -170,6 +170,21 @@ def run(prog, tier):
             res.viol('recursion', 'unbounded recursion in %s' % f.qname, f.loc(), 'recursive function on the load path that calls itself with unchanged arguments', function=f.sig, expr='rec:' + f.qname)
         else:
             res.undecided('recursion', 'recursion in %s' % f.qname, f.loc(), 'recursive function on the load path whose depth bound the rule cannot read [shape not read by the rule]', function=f.sig, expr='rec:' + f.qname)
+    # ---- the load path never hides a failed read: clear()/setstate on the file stream make the end of a
+    # short file invisible to the loops that wait for it
+    nclear = 0
+    for f in load:
+        if f.cls != 'ezc3d::c3d':
+            continue
+        for n in f.calls():
+            if n['k'] == 'CXXMemberCallExpr' and n['callee']['name'] in ('clear', 'setstate') and n['callee'].get('classq', '').startswith(('std::basic_ios', 'std::ios_base', 'std::basic_istream', 'std::basic_fstream')):
+                o = f.nodes[f.strip(n['obj'], 'all')] if n.get('obj') is not None else None
+                if o is not None and o['k'] == 'CXXThisExpr':
+                    nclear += 1
+                    res.viol('checked-read', 'c3d::%s clears the stream state' % f.name, f.loc(n['id']),
+                             'the loader resets the state of the file stream: end-of-file / failure is no longer visible to the code that waits for it (the leading-zero loop of the header '
+                             'reader never ends on an empty or all-zero file)', function=f.sig, expr='clear:' + f.name)
+    res.ok('checked-read', 'the load path never clears the state of the file stream', 'src/', '%d clear()/setstate() calls on the stream' % nclear, function='', expr='no-clear', nontrivial=False)
     # ---- checked-read --------------------------------------------------------------------------------
     rf = prog.fn('ezc3d::c3d::readFile', nparams=4)
     reads = [c for c in rf.calls() if c['callee']['name'] == 'read' and c['callee'].get('classq', '').startswith('std::basic_istream')]
